@@ -20,7 +20,14 @@ impl C16 {
                 h.rng.pick_cloned(&pl.actors)
             };
             let anchors = s.raw.get(&sender).map(|a| a.map()).unwrap_or_default();
-            let msg = gen_msg(&mut h.rng, &anchors, now);
+            let mut msg = gen_msg(&mut h.rng, &anchors, now);
+            if h.rng.chance(1, 8) {
+                // funds sent back to the proxy's own address
+                if let cosmwasm_std::CosmosMsg::Bank(cosmwasm_std::BankMsg::Send { to_address, .. }) = &mut msg {
+                    *to_address = p.w.contract.to_string();
+                    h.out.count("probes_sending_to_the_proxy_itself");
+                }
+            }
             let q = p.can_execute(&sender, &msg);
             h.out.evaluations += 1;
             let q = match q {
@@ -114,6 +121,7 @@ impl Monitor for C16 {
             "probes_one_over_allowance",
             "probes_with_zero_coin",
             "probes_with_empty_coin_list",
+            "probes_sending_to_the_proxy_itself",
         ]
     }
     fn rule(&self) -> &'static str {
